@@ -97,7 +97,9 @@ ReadVerdict(ev) ==
 \* ---- C09: one ECC block packed directly / unwrapped directly
 PackVerdict(ev) ==
     LET v == BlockVerdict(ev.b, [tag |-> 3, raw |-> ev.raw], ev.sk, ev.encs) IN
-    IF v # "ok" THEN v ELSE IF ev.eph_valid # 1 THEN "ephemeral-point-invalid-per-oracle" ELSE "ok"
+    IF v # "ok" THEN v ELSE IF ev.eph_valid # 1 THEN "ephemeral-point-invalid-per-oracle"
+    \* (argmod: the caller's list of encryptors differed after the call - packing reads its arguments, it does not edit them)
+    ELSE IF "argmod" \in DOMAIN ev /\ ev.argmod = 1 THEN "argument-modified" ELSE "ok"
 EccUnwrapVerdict(ev) ==      \* ev.raw: block without the selector byte; ev.valid: OpenSSL accepts the point
     IF Len(ev.raw) < 81 \/ ev.raw[1] # 4 \/ ev.valid # 1 THEN (IF ev.kind = "ok" THEN "accepted-invalid-point-or-format" ELSE "ok")
     ELSE IF ev.kind # "ok" THEN "rejected-valid-block"
